@@ -43,16 +43,21 @@ def p2f (t : Term) (intVars : List String) : Option GTerm :=
     | .pre p => some (preToGTerm p)
     | t => (p2fInt t).map .int
 
+/-- one step of the first loop of `int_variables` -/
+def intVarsStepTerm (acc : List String) (t : Term) : List String :=
+  match t with
+  | .neg a => ext acc a.vars
+  | .bin _ l r => ext (ext acc l.vars) r.vars
+  | _ => acc
+
+/-- one step of the second loop of `int_variables` -/
+def intVarsStepBody (acc : List String) (f : BodyAtom) : List String :=
+  match f with
+  | .cmp .eq l rhs => if regSecond rhs then ext acc l.vars else acc
+  | _ => acc
+
 def intVariables (r : Rule) : List String :=
-  let fromTerms := r.terms.foldl (fun acc t =>
-    match t with
-    | .neg a => ext acc a.vars
-    | .bin _ l r => ext (ext acc l.vars) r.vars
-    | _ => acc) []
-  r.body.foldl (fun acc f =>
-    match f with
-    | .cmp .eq l rhs => if regSecond rhs then ext acc l.vars else acc
-    | _ => acc) fromTerms
+  r.body.foldl intVarsStepBody (r.terms.foldl intVarsStepTerm [])
 
 def naturalComparison (rel : Asp.Rel) (l r : Term) (iv : List String) : Option Formula := do
   let lhs ← p2f l iv
